@@ -18,7 +18,7 @@
 (* not a list word), eb/c (harness packing of t and its nibble; [] if t is *)
 (* not 12 list words), ok, d (decoded entropy bits), sok, s (SeedFromPhrase*)
 (* result, hex).  New: t, eb, c, canon.  Key: s, i (decimal string), k, a. *)
-(* Var: t.  Reset: pin.                                                    *)
+(* Sfp (SeedFromPhrase alone): t, eb, c, sok, s.  Var: t.  Reset: pin.     *)
 (***************************************************************************)
 EXTENDS Seed, Json, IOUtils
 
@@ -39,12 +39,14 @@ TEnc   == /\ Step("Enc") /\ Ev.e \in Ent /\ Ev.c \in CSum
           /\ EncCall(Ev.e, Ev.c, [wf |-> Ev.wf, w |-> Ev.w])
 TDec   == /\ Step("Dec") /\ SuppliedOK(Ev.t, Ev.eb, Ev.c)
           /\ DecCall(Ev.t, Ev.eb, Ev.c, [ok |-> Ev.ok, d |-> Ev.d], [ok |-> Ev.sok, s |-> Ev.s])
+TSfp   == /\ Step("Sfp") /\ SuppliedOK(Ev.t, Ev.eb, Ev.c)
+          /\ SfpCall(Ev.t, Ev.eb, Ev.c, [ok |-> Ev.sok, s |-> Ev.s])
 TNew   == /\ Step("New") /\ SuppliedOK(Ev.t, Ev.eb, Ev.c)
           /\ NewCall(Ev.t, Ev.eb, Ev.c, Ev.canon)
 TKey   == Step("Key") /\ KeyCall(Ev.s, Ev.i, <<Ev.k, Ev.a>>)
 TVar   == Step("Var") /\ VarCall(Ev.t)
 
-TraceNext == TReset \/ TEnc \/ TDec \/ TNew \/ TKey \/ TVar
+TraceNext == TReset \/ TEnc \/ TDec \/ TSfp \/ TNew \/ TKey \/ TVar
 
 TraceInit  == Init /\ l = 1
 TraceSpec  == TraceInit /\ [][TraceNext]_tvars
